@@ -110,12 +110,25 @@ impl Prop for C01 {
     }
     fn gen(&self, rng: &mut Rng, _tier: Tier, _i: usize, stats: &mut Stats) -> String {
         let mut u = universe(rng);
-        let db = gen_db(rng, &mut u);
+        let big = _i % 50 == 13;
+        let db = if big {
+            // enough rows for the executor's chunked / parallel code paths (see C02) under the default thread pool
+            stats.hit("large_dataset");
+            gen_big_db(rng, &mut u)
+        } else {
+            gen_db(rng, &mut u)
+        };
         let nvars = rng.range(3, 6) as u32;
         let mut fresh = 10;
         let scoped = rng.below(10) < 8;
         stats.hit(if scoped { "scoped_stream" } else { "maybe_bound_stream" });
-        let pat = gen_group(rng, &u, nvars, 2, scoped, &mut fresh);
+        let mut pat = gen_group(rng, &u, nvars, 2, scoped, &mut fresh);
+        if big {
+            let p0 = Term::Const(rng.pick(&u.preds).clone());
+            let p1 = if rng.chance(1, 2) { Term::Const(rng.pick(&u.preds).clone()) } else { Term::Var(3) };
+            let second = if rng.chance(1, 2) { (Term::Var(1), p1, Term::Var(2)) } else { (Term::Var(0), p1, Term::Var(2)) };
+            pat = Pat::Group(vec![Pat::Bgp(vec![(Term::Var(0), p0, Term::Var(1)), second])]);
+        }
         let mut vars = Vec::new();
         pat_vars(&pat, &mut vars);
         fresh += 1;
